@@ -5,7 +5,7 @@ VERUS = [dict(
     name="range_routing",
     uses="use vstd::prelude::*;\nuse std::cmp::Ordering;\nuse std::sync::Arc;\n",
     prelude="prelude.rs", proofs="proofs.rs", witness="witness.rs", rlimit=60, min_verified=8,
-    twins=[],
+    twins=["c10_range_partition_id_bounded"], twin_timeout=900,
     items=[
         dict(file=F, path=["fn range_partition_id"], ret="res", loop_count=1,
              contract="""    requires strictly_sorted(split_points@, sort_options@),
@@ -80,7 +80,10 @@ VERUS = [dict(
         dict(name="route_row_shift", item="partition_range_indices", find="push(row_idx as u32)", replace="push((row_idx + 1) as u32)"),
     ],
 )]
-KANI = []
+KANI = [dict(package="datafusion-physical-plan", module="physical_plan/repartition.rs", timeout=2400, harnesses=[
+    dict(name="c10_range_partition_id_bounded", complete=False, bound="<= 5 split points (keys 1,3,5,7,9), row keys 0..=10; compare_rows stubbed by a total pre-order on row length",
+         what="Kani twin of the Verus unit on the unextracted range_partition_id: result == number of split points <= row"),
+])]
 TRUSTED = ["Verus 0.2026.09.13 + bundled Z3", "compare_rows abstracted as an uninterpreted comparison with assumed transitivity (cmp_trans)", "extract_row_at_idx_to_buf, SplitPoint::values, first().len() behind assumed contracts (Arrow)",
            "rewrites R3 (Arc<dyn Array> -> ArrayRef), R13 (closure expression -> assumed prelude fn)"]
 ASSUMPTIONS = ["split points strictly increasing (enforced by validate_range_split_points at construction; not re-verified here)", "indices.len() == split_points.len()+1 (new_range_partitioner)", "batch rows <= u32::MAX",
